@@ -152,6 +152,15 @@ func init() {
 			p.w("%s_res = %s_build(%d, %d, %d)", g, g, n, salt, 3+p.r.Intn(4))
 			p.w("%s_comp = {k: v for k, v in [(\"comp_key_%%d_long_enough_suffix\" %% i, i) for i in range(%d)]}\n%s_in = [(\"comp_key_%%d_long_enough_suffix\" %% i) in %s_comp for i in range(0, %d, 2)]", g, n, g, g, n+40)
 		}},
+		block{"deepkeys", func(p *pg, g string) {
+			// composite keys nested deeper than the comparison limit, holding long strings, in tables of
+			// several buckets; lookups of present and of ABSENT deep keys, membership, equality
+			n := 10 + p.r.Intn(40)
+			salt := p.r.Intn(1000)
+			p.w("def %s_deep(s, depth):\n    t = (s, len(s))\n    for _ in range(depth): t = (t,)\n    return t", g)
+			p.w("def %s_run(n, salt):\n    d = {}\n    s = set()\n    for i in range(n):\n        d[\"plain_key_%%d_%%d_long_enough\" %% (salt, i)] = i\n        s.add((\"pair_element_%%d_%%d_long\" %% (salt, i), i))\n    for i in range(n // 3 + 2):\n        k = %s_deep(\"deep_present_%%d_%%d_long_key\" %% (salt, i), 11 + i %% 3)\n        d[k] = -i\n        s.add(k)\n    out = []\n    for i in range(n):\n        a = %s_deep(\"deep_absent_%%d_%%d_long_key_x\" %% (salt, i), 11 + i %% 4)\n        out.append((d.get(a, \"miss\"), a in d, a in s, d == {a: 1}))\n    return out, len(d), len(s), list(d)[-2:]", g, g, g)
+			p.w("%s_res = %s_run(%d, %d)\n%s_res2 = %s_run(%d, %d)", g, g, n, salt, g, g, 8+p.r.Intn(8), salt+7)
+		}},
 		block{"bigset", func(p *pg, g string) {
 			// set algebra and subset / superset / equality queries on sets of 40-400 long strings
 			n := 40 + p.r.Intn(360)
@@ -244,7 +253,7 @@ func genProgram(seed uint64, i int64) program {
 	for k := 0; k < nb; k++ {
 		bi := r.Intn(len(blocks))
 		if r.Intn(4) == 0 {
-			bi = len(blocks) - 1 - r.Intn(2) // the big dict / big set blocks are over-weighted
+			bi = len(blocks) - 1 - r.Intn(3) // the big dict / deep keys / big set blocks are over-weighted
 		}
 		if i < int64(len(blocks)) && k == 0 {
 			bi = int(i) // every block kind appears
